@@ -702,3 +702,43 @@ def c17_systematic(rng: random.Random, quick: bool) -> list:
                     sch += [("idle",)]
                     out.append(sch)
     return out
+
+
+def tokens_to_schedule(toks: list, variant: int) -> list:
+    """One history of Session.tla events (printed by TLC, GenMode) -> schedule for the real client.  User and
+    environment events map one to one; the specification's internal steps (a task resuming, a timer firing, an
+    answer being written) are loop iterations here.  The recorded execution is validated against the
+    specification, so the translation needs no oracle of its own."""
+    sch: list = []
+    gap_cycle = ([], [("iter", 1)], [("idle",)])
+    for n, t in enumerate(toks):
+        k = t[0]
+        g = list(gap_cycle[(n + variant) % 3])
+        if k == "op":
+            sch += [("ev", "op", t[1], t[2], int(t[3]), int(t[4]))] + g
+        elif k == "chunk":
+            sch += [("ev", "msgs", [dict(m) for m in t[1]])] + g
+        elif k in ("step", "vastarted", "vahandler"):
+            sch += [("iter", 1)]
+        elif k == "timer":
+            sch += [("iter", 1)]
+        elif k == "time":
+            sch += [("tick",)]
+        elif k == "cancel":
+            sch += [("ev", "cancel", t[1])] + g
+        elif k == "close":
+            sch += [("ev", "close")] + g
+        elif k == "connunsub":
+            sch += [("ev", "conn_unsub", t[1])] + g
+        elif k == "sub":
+            sch += [("ev", "sub", int(t[1]), t[2], bool(t[3]))] + g
+        elif k == "unsub":
+            sch += [("ev", "unsub", int(t[1]), t[2])] + g
+        elif k == "vasub":
+            sch += [("ev", "va_sub", t[1], bool(t[2]))] + g
+        elif k == "vaunsub":
+            sch += [("ev", "va_unsub")] + g
+        elif k == "varelease":
+            sch += [("ev", "va_release", int(t[1]), t[2])] + g
+    sch += [("idle",), ("tick",), ("tick",), ("idle",)]
+    return sch
